@@ -218,7 +218,29 @@ func (e *Env) contractVars(it *Item, fn *ssa.Function, args []Value) map[string]
 			vars[p.Name()] = args[i]
 		}
 	}
+	// the names the contract was written against (a parameter renamed since then keeps its
+	// position): see contract-params.json
+	if rec := e.w.recordedParams[it.Pkg+"::"+it.Name]; rec != nil && len(rec["params"]) == len(fn.Params) {
+		for i, n := range rec["params"] {
+			if _, taken := vars[n]; !taken && n != "" && n != "_" && i < len(args) {
+				vars[n] = args[i]
+			}
+		}
+	}
 	return vars
+}
+
+// bindRecordedResults binds the result names the contract was written against (by position).
+func (e *Env) bindRecordedResults(vars map[string]Value, it *Item, fn *ssa.Function, results []Value) {
+	rec := e.w.recordedParams[it.Pkg+"::"+it.Name]
+	if rec == nil || len(rec["results"]) != fn.Signature.Results().Len() {
+		return
+	}
+	for i, n := range rec["results"] {
+		if _, taken := vars[n]; !taken && n != "" && n != "_" && i < len(results) {
+			vars[n] = results[i]
+		}
+	}
 }
 
 func bindResults(vars map[string]Value, fn *ssa.Function, results []Value) {
@@ -295,6 +317,7 @@ func (e *Env) applyContract(fr *Frame, it *Item, fn *ssa.Function, args []Value,
 		results = append(results, v)
 	}
 	bindResults(vars, fn, results)
+	e.bindRecordedResults(vars, it, fn, results)
 	post := e.specCtx(fn, st, old, vars)
 	for _, c := range it.Clauses {
 		if c.Kind != "ensures" && c.Kind != "ghostensures" {
